@@ -41,6 +41,18 @@ fn roundtrip_event<F: Fam>(out: &mut Out, p: &F::Packet) {
         ev["dec_block"] = dec_block::<F>(&b);
         ev["dec_async"] = dec_async::<F>(&b, usize::MAX);
         ev["dec_poll"] = dec_poll::<F>(&b, usize::MAX);
+        // "encoding" is every encoder entry point: what the async encoder hands to a socket-like sink (vectored writes,
+        // a short first write) must decode to the packet as well
+        let a = crate::codec::enc_async_on::<F>(p, vec![WStep::Accept(b.len() / 2 + 1)], WStep::Accept(usize::MAX), None, true, None);
+        let same = a["res"]["k"] == "ok" && a["sink"] == jbytes(&b);
+        if same {
+            ev["dec_of_async_enc"] = ev["dec_block"].clone();
+        } else if a["res"]["k"] == "ok" {
+            let sb: Vec<u8> = a["sink"].as_array().map(|x| x.iter().map(|y| y.as_u64().unwrap_or(0) as u8).collect()).unwrap_or_default();
+            ev["dec_of_async_enc"] = dec_block::<F>(&sb);
+        } else {
+            ev["dec_of_async_enc"] = a["res"].clone();
+        }
     }
     out.ev(ev);
 }
@@ -304,6 +316,7 @@ pub fn sweep_packets_v5() -> Vec<v5::Packet> {
 
 pub fn record_roundtrip(out: &mut Out, tier: &str, seed: u64) {
     attempt_oversized();
+    size_sweep(out);
     big_shapes(out, tier, if cfg!(debug_assertions) { "debug" } else { "release" });
     let n = if tier == "thorough" { 60000 } else { 2400 };
     let mut rng = Rng::new(seed ^ 0xC01);
@@ -320,6 +333,10 @@ pub fn record_roundtrip(out: &mut Out, tier: &str, seed: u64) {
     for p in all_code_packets_v5() {
         roundtrip_event::<V5>(out, &p);
     }
+    for (p3, p5) in threshold_publishes() {
+        roundtrip_event::<V3>(out, &p3);
+        roundtrip_event::<V5>(out, &p5);
+    }
     packets::<V3>(&mut rng, &mut b, n, |_r, p| roundtrip_event::<V3>(out, p));
     packets::<V5>(&mut rng, &mut b, n * 2, |_r, p| roundtrip_event::<V5>(out, p));
 }
@@ -327,12 +344,25 @@ pub fn record_roundtrip(out: &mut Out, tier: &str, seed: u64) {
 // ------------------------------------------------------------------------------------------------
 // C02
 fn lens_event<F: Fam>(out: &mut Out, p: &F::Packet, profile: &str) {
+    // a history: the streaming encoder of the same value has just FAILED on this thread (a sink that breaks in the
+    // middle of the body); the lengths measured afterwards must not depend on it
+    if let Ok(Some((_, elen))) = guarded(|| F::body_encode(p, &mut crate::io::CountingSink::default())) {
+        if elen > 1 {
+            let _ = enc_stream::<F>(p, 7, Some((elen / 2, WStep::Err(std::io::ErrorKind::BrokenPipe))));
+            let _ = enc_stream::<F>(p, usize::MAX, Some((elen - 1, WStep::Err(std::io::ErrorKind::TimedOut))));
+        }
+    }
     let (e, bytes) = enc::<F>(p);
     let mut ev = json!({"ev": "Lens", "fam": F::NAME, "profile": profile, "packet": F::to_json(p),
                         "encode_len": encode_len::<F>(p), "parts": parts_json::<F>(p)});
     match bytes {
         Some(b) => {
             ev["enc"] = json!({"k": "ok", "len": b.len(), "hdr": jbytes(&b[..b.len().min(5)])});
+            // the async encoder "emits" into a sink: one whose first write takes seven bytes (vectored on every other
+            // packet) must end up with as many bytes as the packet reports
+            let a = crate::codec::enc_async_on::<F>(p, vec![WStep::Accept(7), WStep::Pending], WStep::Accept(usize::MAX), None,
+                                                    b.len() % 2 == 1, None);
+            ev["enc_async"] = json!({"k": a["res"]["k"], "len": a["sink"].as_array().map_or(0, |x| x.len())});
         }
         None => ev["enc"] = e,
     }
@@ -486,6 +516,7 @@ pub fn attempt_oversized() {
 
 pub fn record_lens(out: &mut Out, tier: &str, seed: u64, profile: &str) {
     attempt_oversized();
+    size_sweep(out);
     let n = if tier == "thorough" { 30000 } else { 1800 };
     let mut rng = Rng::new(seed ^ 0xC02);
     let mut b = budget(tier);
@@ -500,6 +531,10 @@ pub fn record_lens(out: &mut Out, tier: &str, seed: u64, profile: &str) {
     }
     for p in all_code_packets_v5() {
         lens_event::<V5>(out, &p, profile);
+    }
+    for (p3, p5) in threshold_publishes() {
+        lens_event::<V3>(out, &p3, profile);
+        lens_event::<V5>(out, &p5, profile);
     }
     packets::<V3>(&mut rng, &mut b, n, |_r, p| lens_event::<V3>(out, p, profile));
     packets::<V5>(&mut rng, &mut b, n * 2, |_r, p| lens_event::<V5>(out, p, profile));
@@ -559,11 +594,19 @@ pub fn record_lens(out: &mut Out, tier: &str, seed: u64, profile: &str) {
 
 // ------------------------------------------------------------------------------------------------
 // C09 / C10
-fn sink_scripts(rng: &mut Rng, len: usize) -> Vec<(String, Vec<WStep>, WStep)> {
+fn sink_scripts(rng: &mut Rng, len: usize) -> Vec<(String, Vec<WStep>, WStep, bool)> {
     let mut v = vec![
-        ("all".to_string(), vec![], WStep::Accept(usize::MAX)),
-        ("one-byte".to_string(), vec![], WStep::Accept(1)),
-        ("three-bytes".to_string(), vec![], WStep::Accept(3)),
+        ("all".to_string(), vec![], WStep::Accept(usize::MAX), false),
+        ("one-byte".to_string(), vec![], WStep::Accept(1), false),
+        ("three-bytes".to_string(), vec![], WStep::Accept(3), false),
+        // sinks that take vectored writes (a socket): everything; a first write shorter than any packet head; a first
+        // write that stops in the middle of the packet; not-ready answers around a short write
+        ("vectored-all".to_string(), vec![], WStep::Accept(usize::MAX), true),
+        ("vectored-seven".to_string(), vec![WStep::Accept(7)], WStep::Accept(usize::MAX), true),
+        ("vectored-half".to_string(), vec![WStep::Accept(len / 2 + 1)], WStep::Accept(usize::MAX), true),
+        ("vectored-pending".to_string(), vec![WStep::Pending, WStep::Accept(len * 2 / 3 + 1), WStep::Pending, WStep::Accept(3)],
+         WStep::Accept(5000), true),
+        ("half".to_string(), vec![WStep::Accept(len / 2 + 1), WStep::Pending], WStep::Accept(4096), false),
     ];
     // one byte at a time with a Pending before every write
     if len <= 2000 {
@@ -572,7 +615,7 @@ fn sink_scripts(rng: &mut Rng, len: usize) -> Vec<(String, Vec<WStep>, WStep)> {
             s.push(WStep::Pending);
             s.push(WStep::Accept(1));
         }
-        v.push(("pending-one-byte".to_string(), s, WStep::Accept(1)));
+        v.push(("pending-one-byte".to_string(), s, WStep::Accept(1), false));
     }
     let mut s = Vec::new();
     for _ in 0..40 {
@@ -581,7 +624,8 @@ fn sink_scripts(rng: &mut Rng, len: usize) -> Vec<(String, Vec<WStep>, WStep)> {
         }
         s.push(WStep::Accept(rng.range(1, 9) as usize));
     }
-    v.push(("random".to_string(), s, WStep::Accept(rng.range(1, 70) as usize)));
+    let vect = rng.bool();
+    v.push(("random".to_string(), s, WStep::Accept(rng.range(1, 70) as usize), vect));
     v
 }
 
@@ -661,8 +705,8 @@ fn enc_event<F: Fam>(out: &mut Out, rng: &mut Rng, p: &F::Packet) {
         ev["again"] = again;
         ev["cloned"] = cloned;
         let mut asyncs = Vec::new();
-        for (name, script, dflt) in sink_scripts(rng, b.len()) {
-            let mut a = enc_async::<F>(p, script, dflt, None);
+        for (name, script, dflt, vect) in sink_scripts(rng, b.len()) {
+            let mut a = crate::codec::enc_async_on::<F>(p, script, dflt, None, vect, None);
             a["script"] = J::from(name);
             asyncs.push(a);
         }
@@ -675,6 +719,7 @@ fn enc_event<F: Fam>(out: &mut Out, rng: &mut Rng, p: &F::Packet) {
 
 pub fn record_enc(out: &mut Out, tier: &str, seed: u64) {
     attempt_oversized();
+    size_sweep(out);
     big_shapes(out, tier, if cfg!(debug_assertions) { "debug" } else { "release" });
     let n = if tier == "thorough" { 20000 } else { 900 };
     let mut rng = Rng::new(seed ^ 0xC09);
@@ -694,6 +739,55 @@ pub fn record_enc(out: &mut Out, tier: &str, seed: u64) {
         enc_event::<V5>(out, &mut rng, &p);
     }
     // PUBLISH payload sizes around the powers of two where buffering fast paths switch, with every flag combination
+    for (p3, p5) in threshold_publishes() {
+        enc_event::<V3>(out, &mut rng, &p3);
+        enc_event::<V5>(out, &mut rng, &p5);
+    }
+    fn interleave_event<F: Fam>(out: &mut Out, a: &F::Packet, b: &F::Packet) {
+        let (ea, ba) = enc::<F>(a);
+        let (eb, bb) = enc::<F>(b);
+        if ba.map_or(0, |x| x.len()) > 3000 || bb.map_or(0, |x| x.len()) > 3000 {
+            return;
+        }
+        let mut ev = json!({"ev": "Interleave", "fam": F::NAME, "pa": F::to_json(a), "pb": F::to_json(b), "sync_a": ea, "sync_b": eb});
+        ev["run"] = enc_interleaved::<F>(a, b);
+        out.ev(ev);
+    }
+    let types3 = V3::types();
+    let mut prev3: Option<v3::Packet> = None;
+    for i in 0..n {
+        let p = V3::gen(&mut rng, &mut b, types3[i % types3.len()]);
+        enc_event::<V3>(out, &mut rng, &p);
+        if i % 4 == 0 {
+            if let Some(q) = &prev3 {
+                interleave_event::<V3>(out, q, &p);
+                interleave_event::<V3>(out, &p, &p);
+            }
+        }
+        prev3 = Some(p);
+    }
+    let types5 = V5::types();
+    let mut prev5: Option<v5::Packet> = None;
+    for i in 0..2 * n {
+        let p = V5::gen(&mut rng, &mut b, types5[i % types5.len()]);
+        enc_event::<V5>(out, &mut rng, &p);
+        if i % 4 == 0 {
+            if let Some(q) = &prev5 {
+                interleave_event::<V5>(out, q, &p);
+                interleave_event::<V5>(out, &p, &p);
+            }
+        }
+        prev5 = Some(p);
+    }
+    let ev = COVERAGE.with(|c| c.borrow().event());
+    out.ev(ev);
+}
+
+/// PUBLISH packets whose payload size sits around the powers of two where buffering fast paths switch (nobody's
+/// protocol boundary), with every combination of DUP / RETAIN / QoS; the v5 ones also with a topic of 40 bytes and
+/// properties, so that the packet head is longer than a short first write
+pub fn threshold_publishes() -> Vec<(v3::Packet, v5::Packet)> {
+    let mut v = Vec::new();
     for (k, n) in [255usize, 256, 1024, 4095, 4096, 4097, 8192, 16384, 65536].iter().enumerate() {
         for fl in 0..8u8 {
             if *n > 8192 && fl % 3 != k as u8 % 3 {
@@ -701,28 +795,22 @@ pub fn record_enc(out: &mut Out, tier: &str, seed: u64) {
             }
             let (dup, retain, q1) = (fl & 1 != 0, fl & 2 != 0, fl & 4 != 0);
             let qp = if q1 { QosPid::Level1(pid1()) } else { QosPid::Level0 };
-            let mut p3 = v3::Publish::new(qp, TopicName::try_from("t".to_string()).unwrap(), Bytes::from(vec![0x5Au8; *n]));
+            let topic = if fl % 2 == 0 { "t".to_string() } else { "sensors/building-7/floor-3/room-21/temp".to_string() };
+            let mut p3 = v3::Publish::new(qp, TopicName::try_from(topic.clone()).unwrap(), Bytes::from(vec![0x5Au8; *n]));
             p3.dup = dup;
             p3.retain = retain;
-            enc_event::<V3>(out, &mut rng, &v3::Packet::Publish(p3));
-            let mut p5 = v5::Publish::new(qp, TopicName::try_from("t".to_string()).unwrap(), Bytes::from(vec![0x5Au8; *n]));
+            let mut p5 = v5::Publish::new(qp, TopicName::try_from(topic).unwrap(), Bytes::from(vec![0x5Au8; *n]));
             p5.dup = dup;
             p5.retain = retain;
-            enc_event::<V5>(out, &mut rng, &v5::Packet::Publish(p5));
+            if fl >= 4 {
+                p5.properties.content_type = Some(std::sync::Arc::new("application/octet-stream".to_string()));
+                p5.properties.correlation_data = Some(Bytes::from(vec![0xC3u8; 16]));
+                p5.properties.payload_is_utf8 = Some(true);
+            }
+            v.push((v3::Packet::Publish(p3), v5::Packet::Publish(p5)));
         }
     }
-    let types3 = V3::types();
-    for i in 0..n {
-        let p = V3::gen(&mut rng, &mut b, types3[i % types3.len()]);
-        enc_event::<V3>(out, &mut rng, &p);
-    }
-    let types5 = V5::types();
-    for i in 0..2 * n {
-        let p = V5::gen(&mut rng, &mut b, types5[i % types5.len()]);
-        enc_event::<V5>(out, &mut rng, &p);
-    }
-    let ev = COVERAGE.with(|c| c.borrow().event());
-    out.ev(ev);
+    v
 }
 
 fn pid1() -> mqtt_proto::Pid {
@@ -846,4 +934,57 @@ pub fn record_vectors(out: &mut Out, input: &str, mode: &str, seed: u64) {
             _ => {}
         }
     }
+}
+
+// ------------------------------------------------------------------------------------------------
+// every packet SIZE: a QoS-0 PUBLISH (topic "t") for every remaining length 4..=2300 and every 61st up to 70 000, through
+// the blocking encoder, the async encoder against four sinks, and the three decoders.  Sizes that are nobody's protocol
+// boundary (a 1 KiB stack buffer, a 4 KiB threshold) are covered because ALL sizes are.  Equality of bytes and packets is
+// computed here (Packet: PartialEq) and reported as booleans; the specification checks sizes and the header.
+fn size_sweep_for<F: GenFam>(out: &mut Out) {
+    let overhead = if F::NAME == "v5" { 4 } else { 3 };
+    let rls: Vec<usize> = (4usize..=2300).chain((2300..70000).step_by(61)).collect();
+    for rl in rls {
+        let payload: Vec<u8> = (0..rl - overhead).map(|i| (i % 253) as u8).collect();
+        let mut j = json!({"t": "Publish", "dup": rl % 2 == 1, "retain": rl % 3 == 0, "qos": 0, "pid": [], "topic": [116],
+            "payload": payload,
+            "props": {"pfi": [], "mei": [], "ta": [], "rt": [], "cd": [], "sid": [], "ct": [], "user": []}});
+        if F::NAME == "v3" {
+            j.as_object_mut().unwrap().remove("props");
+        }
+        let Ok(p) = F::from_json(&j) else { continue };
+        let (e, bytes) = enc::<F>(&p);
+        let mut ev = json!({"ev": "SizeSweep", "fam": F::NAME, "rl": rl, "dup": rl % 2 == 1, "retain": rl % 3 == 0,
+                            "encode_len": encode_len::<F>(&p)});
+        match bytes {
+            None => ev["enc"] = e,
+            Some(b) => {
+                ev["enc"] = json!({"k": "ok", "len": b.len(), "hdr": jbytes(&b[..b.len().min(5)])});
+                let scripts: Vec<(Vec<WStep>, WStep, bool)> = vec![
+                    (vec![], WStep::Accept(usize::MAX), false),
+                    (vec![WStep::Accept(7), WStep::Pending], WStep::Accept(usize::MAX), true),
+                    (vec![WStep::Accept(b.len() / 2 + 1)], WStep::Accept(usize::MAX), true),
+                    (vec![WStep::Pending], WStep::Accept(509), false),
+                ];
+                let mut asyncs = Vec::new();
+                for (sc, d, v) in scripts {
+                    let a = enc_async_on::<F>(&p, sc, d, None, v, None);
+                    asyncs.push(json!({"k": a["res"]["k"], "same": a["sink"] == jbytes(&b)}));
+                }
+                ev["async"] = J::Array(asyncs);
+                let pj = F::to_json(&p);
+                let mut decs = Vec::new();
+                for (front, r) in [("block", dec_block::<F>(&b)), ("async", dec_async::<F>(&b, 1000)), ("poll", dec_poll::<F>(&b, usize::MAX))] {
+                    decs.push(json!({"front": front, "ok": r["k"] == "ok" && r["v"] == pj,
+                                     "total": r["total"].as_u64().unwrap_or(b.len() as u64)}));
+                }
+                ev["dec"] = J::Array(decs);
+            }
+        }
+        out.ev(ev);
+    }
+}
+pub fn size_sweep(out: &mut Out) {
+    size_sweep_for::<V3>(out);
+    size_sweep_for::<V5>(out);
 }
